@@ -30,14 +30,34 @@ import (
 // --- fixture: one adaptation with the two launched plugins per process -------------------
 
 type fixture struct {
-	a   *adaptation.Adaptation
-	dir string
+	a    *adaptation.Adaptation
+	dir  string
+	opts PluginOpts
+
+	podChanged bool // the last request's pod differed after the call
 }
 
-var (
-	fix      *fixture
-	fixStart int // number of fixtures started in this process
-)
+// one pair of plugin processes per option set in use, started on demand
+var fixtures = map[PluginOpts]*fixture{}
+
+// launcher writes the pre-installed "plugin" NN-name as a shell stub that execs the built
+// binary with command line flags: pre-installed plugins are launched without arguments, and
+// exec keeps the environment and the inherited connection (descriptor 3) intact.
+func launcher(dst, bin string, flags []string) error {
+	q := func(s string) string { return "'" + strings.ReplaceAll(s, "'", `'\''`) + "'" }
+	line := "exec " + q(bin)
+	pre := ""
+	for _, f := range flags {
+		line += " " + q(f)
+		if f == "-name" || f == "-idx" {
+			// the stub refuses -name / -idx on top of the name and index a pre-installed plugin
+			// inherits through its environment: hand them over by flag only, the way an
+			// externally started plugin gets them (the connection is still descriptor 3)
+			pre = "unset NRI_PLUGIN_NAME NRI_PLUGIN_IDX\n"
+		}
+	}
+	return os.WriteFile(dst, []byte("#!/bin/sh\n"+pre+line+"\n"), 0o755)
+}
 
 func linkOrCopy(src, dst string) error {
 	if err := os.Link(src, dst); err == nil {
@@ -59,12 +79,12 @@ func linkOrCopy(src, dst string) error {
 	return out.Close()
 }
 
-func startFixture() (*fixture, error) {
+func startFixture(opts PluginOpts) (*fixture, error) {
 	bin := os.Getenv("VERIF_BIN")
 	if bin == "" {
 		return nil, fmt.Errorf("VERIF_BIN is not set (directory with the built device-injector and ulimit-adjuster)")
 	}
-	f := &fixture{dir: fx.ShortDir()}
+	f := &fixture{dir: fx.ShortDir(), opts: opts}
 	pd := filepath.Join(f.dir, "plugins")
 	if err := os.MkdirAll(pd, 0o755); err != nil {
 		return nil, err
@@ -72,10 +92,22 @@ func startFixture() (*fixture, error) {
 	if err := os.MkdirAll(filepath.Join(f.dir, "conf.d"), 0o755); err != nil {
 		return nil, err
 	}
-	for src, dst := range map[string]string{"device-injector": "10-device-injector", "ulimit-adjuster": "20-ulimit-adjuster"} {
-		if err := linkOrCopy(filepath.Join(bin, src), filepath.Join(pd, dst)); err != nil {
+	for _, pl := range []struct {
+		src, dst string
+		flags    []string
+	}{
+		{"device-injector", "10-device-injector", opts.injectorFlags()},
+		{"ulimit-adjuster", "20-ulimit-adjuster", opts.adjusterFlags()},
+	} {
+		var err error
+		if len(pl.flags) == 0 {
+			err = linkOrCopy(filepath.Join(bin, pl.src), filepath.Join(pd, pl.dst))
+		} else {
+			err = launcher(filepath.Join(pd, pl.dst), filepath.Join(bin, pl.src), pl.flags)
+		}
+		if err != nil {
 			os.RemoveAll(f.dir)
-			return nil, fmt.Errorf("installing %s: %w", src, err)
+			return nil, fmt.Errorf("installing %s: %w", pl.src, err)
 		}
 	}
 	// far above the healthy latency (< 1 ms): a slow machine must not drop a plugin
@@ -98,7 +130,6 @@ func startFixture() (*fixture, error) {
 		return nil, err
 	}
 	f.a = a
-	fixStart++
 	ev.Get("C20").AddExtra("plugin_pairs_launched", 1)
 	if err := f.healthy(); err != nil {
 		f.stop()
@@ -112,22 +143,28 @@ func (f *fixture) stop() {
 	os.RemoveAll(f.dir)
 }
 
-func getFixture() (*fixture, error) {
-	if fix != nil {
-		return fix, nil
+func getFixture(opts PluginOpts) (*fixture, error) {
+	if f := fixtures[opts]; f != nil {
+		return f, nil
 	}
-	f, err := startFixture()
+	f, err := startFixture(opts)
 	if err != nil {
 		return nil, err
 	}
-	fix = f
-	return fix, nil
+	fixtures[opts] = f
+	return f, nil
 }
 
-func dropFixture() {
-	if fix != nil {
-		fix.stop()
-		fix = nil
+func dropFixture(opts PluginOpts) {
+	if f := fixtures[opts]; f != nil {
+		f.stop()
+		delete(fixtures, opts)
+	}
+}
+
+func dropAllFixtures() {
+	for o := range fixtures {
+		dropFixture(o)
 	}
 }
 
@@ -137,33 +174,46 @@ func (f *fixture) create(ctr string, ann map[string]string, rq *ReqCtx) (*api.Cr
 		Container: &api.Container{Id: "ctr0", PodSandboxId: "pod0", Name: ctr},
 	}
 	rq.apply(req)
-	return f.a.CreateContainer(context.Background(), req)
+	before := proto.Clone(req.Pod)
+	rsp, err := f.a.CreateContainer(context.Background(), req)
+	// The plugins only read the request. They run out of process, so all that can be observed
+	// here is the runtime-side pod object (the adaptation edits the container part of a request
+	// by design); a change is counted, not judged.
+	f.podChanged = !proto.Equal(before, req.Pod)
+	return rsp, err
 }
 
-// healthy sends the READMEs' canonical forms for both plugins and expects both to answer.
+// healthy tells whether both plugin processes still answer requests. It must not depend on
+// the plugins being right (that is the property's business): a plugin counts as serving when
+// the README's canonical annotation yields its contribution or any error, or when a payload
+// that is not a list yields an error; a plugin that is gone yields neither (the adaptation
+// drops it and the request succeeds without it).
 func (f *fixture) healthy() error {
-	rsp, err := f.create("hc", map[string]string{
-		"devices.nri.io/container.hc":            "- path: /dev/hc\n  type: c\n  major: 1\n  minor: 3\n",
-		"ulimits.nri.containerd.io/container.hc": "- type: RLIMIT_NOFILE\n  hard: 4096\n  soft: 1024\n",
-	}, nil)
-	if err != nil {
-		return fmt.Errorf("health request failed: %v", err)
+	probes := []struct {
+		name, key, good, bad string
+		n                    func(*api.ContainerAdjustment) int
+	}{
+		{"device-injector", "devices.nri.io/container.hc", "- path: /dev/hc\n  type: c\n  major: 1\n  minor: 3\n", "x",
+			func(a *api.ContainerAdjustment) int { return len(a.GetLinux().GetDevices()) }},
+		{"ulimit-adjuster", "ulimits.nri.containerd.io/container.hc", "- type: RLIMIT_NOFILE\n  hard: 4096\n  soft: 1024\n", "x",
+			func(a *api.ContainerAdjustment) int { return len(a.GetRlimits()) }},
 	}
-	if rsp == nil || rsp.Adjust == nil {
-		return fmt.Errorf("health request: no adjustment")
-	}
-	if n := len(rsp.Adjust.GetLinux().GetDevices()); n != 1 {
-		return fmt.Errorf("health request: %d devices from the injector, want 1", n)
-	}
-	if n := len(rsp.Adjust.GetRlimits()); n != 1 {
-		return fmt.Errorf("health request: %d rlimits from the adjuster, want 1", n)
+	for _, p := range probes {
+		rsp, err := f.create("hc", map[string]string{p.key: p.good}, nil)
+		if err != nil || p.n(rsp.GetAdjust()) > 0 {
+			continue
+		}
+		if _, err := f.create("hc", map[string]string{p.key: p.bad}, nil); err != nil {
+			continue
+		}
+		return fmt.Errorf("%s does not answer (neither a contribution nor an error)", p.name)
 	}
 	return nil
 }
 
 func TestMain(m *testing.M) {
 	code := m.Run()
-	dropFixture()
+	dropAllFixtures()
 	os.Exit(code)
 }
 
@@ -500,7 +550,24 @@ func judge(f *fixture, c C20Case) ev.Outcome {
 	o.NonTrivial = competing || related || anyIll || overlap
 
 	rsp, err := f.create(c.Ctr, ann, c.Req)
-	hist := map[string]any{"annotations": ann}
+	if f.podChanged {
+		o.Lenient = append(o.Lenient, "request_pod_changed_by_call")
+	}
+	switch {
+	case c.Opts == PluginOpts{}:
+		o.Classes = append(o.Classes, "opts:default")
+	default:
+		if c.Opts.InjVerbose {
+			o.Classes = append(o.Classes, "opts:injector_verbose")
+		}
+		if c.Opts.AdjVerbose {
+			o.Classes = append(o.Classes, "opts:adjuster_verbose")
+		}
+		if c.Opts.NameIdx {
+			o.Classes = append(o.Classes, "opts:name_idx_flags")
+		}
+	}
+	hist := map[string]any{"annotations": ann, "injector_flags": c.Opts.injectorFlags(), "adjuster_flags": c.Opts.adjusterFlags()}
 	if err != nil {
 		hist["error"] = err.Error()
 	} else {
@@ -737,7 +804,7 @@ func brief(rsp *api.CreateContainerResponse) string {
 }
 
 func runC20(c C20Case) ev.Outcome {
-	f, err := getFixture()
+	f, err := getFixture(c.Opts)
 	if err != nil {
 		// infrastructure, not a verdict: make the shard end inconclusive
 		panic(fmt.Sprintf("C20 fixture: %v", err))
@@ -753,8 +820,8 @@ func runC20(c C20Case) ev.Outcome {
 	if herr == nil {
 		return o
 	}
-	dropFixture()
-	f, err = getFixture()
+	dropFixture(c.Opts)
+	f, err = getFixture(c.Opts)
 	if err != nil {
 		panic(fmt.Sprintf("C20 fixture (restart after %q; first verdict %q): %v", herr, o.Fail, err))
 	}
@@ -763,7 +830,7 @@ func runC20(c C20Case) ev.Outcome {
 	if o2.Fail != "" {
 		if herr2 := f.healthy(); herr2 != nil {
 			o2.Fail += fmt.Sprintf(" [after this request the plugins stopped serving: %v]", herr2)
-			dropFixture()
+			dropFixture(c.Opts)
 		}
 		return o2
 	}
@@ -772,7 +839,7 @@ func runC20(c C20Case) ev.Outcome {
 }
 
 func TestProp_C20(t *testing.T) {
-	if _, err := getFixture(); err != nil {
+	if _, err := getFixture(PluginOpts{}); err != nil {
 		t.Fatalf("C20 fixture: %v", err)
 	}
 	ev.Run(t, "C20", genC20, runC20)
@@ -787,41 +854,43 @@ func TestExh_C20(t *testing.T) {
 	const ctr = "c0"
 	slots := []struct{ scope, target string }{{scopeCtr, ctr}, {scopeCtr, "c"}, {scopeCtr, "c0-x"}, {scopePod, ""}, {scopeBare, ""}}
 	n := 0
-	for _, fam := range families {
-		for mask := 0; mask < 1<<len(slots); mask++ {
-			c := C20Case{Ctr: ctr}
-			for i, s := range slots {
-				if mask&(1<<i) == 0 {
-					continue
+	for _, opts := range optionSets {
+		for _, fam := range families {
+			for mask := 0; mask < 1<<len(slots); mask++ {
+				c := C20Case{Ctr: ctr, Opts: opts}
+				for i, s := range slots {
+					if mask&(1<<i) == 0 {
+						continue
+					}
+					a := Ann{Family: fam, Scope: s.scope, Target: s.target, Style: "block"}
+					tag := fmt.Sprintf("exh%d", i)
+					switch fam {
+					case famDev:
+						a.Devices = []Dev{{Path: "/dev/" + tag, Type: "c", Major: int64(10 + i), Minor: int64(i)}}
+					case famCDI:
+						a.CDI = []string{"vendor.com/device=" + tag}
+					case famMnt:
+						a.Mounts = []Mnt{{Source: "/src/" + tag, Destination: "/mnt/" + tag, Type: "bind", Options: []string{"bind", "ro"}}}
+					case famRlim:
+						a.Rlimits = []Rlim{{Type: rlimitNames[i], Hard: u64p(uint64(100 + i)), Soft: u64p(uint64(i))}}
+					}
+					a.Text = (&renderer{ch: fixedChooser{}, style: "block"}).render(a.node())
+					c.Anns = append(c.Anns, a)
 				}
-				a := Ann{Family: fam, Scope: s.scope, Target: s.target, Style: "block"}
-				tag := fmt.Sprintf("exh%d", i)
-				switch fam {
-				case famDev:
-					a.Devices = []Dev{{Path: "/dev/" + tag, Type: "c", Major: int64(10 + i), Minor: int64(i)}}
-				case famCDI:
-					a.CDI = []string{"vendor.com/device=" + tag}
-				case famMnt:
-					a.Mounts = []Mnt{{Source: "/src/" + tag, Destination: "/mnt/" + tag, Type: "bind", Options: []string{"bind", "ro"}}}
-				case famRlim:
-					a.Rlimits = []Rlim{{Type: rlimitNames[i], Hard: u64p(uint64(100 + i)), Soft: u64p(uint64(i))}}
+				raw := ev.Snapshot(c)
+				r.Journal(raw)
+				o := runC20(c)
+				r.ClearJournal()
+				o.Classes = append(o.Classes, "sweep:key_presence")
+				r.Record(raw, o)
+				if o.Fail != "" {
+					t.Fatalf("C20: %s", o.Fail)
 				}
-				a.Text = (&renderer{ch: fixedChooser{}, style: "block"}).render(a.node())
-				c.Anns = append(c.Anns, a)
+				n++
 			}
-			raw := ev.Snapshot(c)
-			r.Journal(raw)
-			o := runC20(c)
-			r.ClearJournal()
-			o.Classes = append(o.Classes, "sweep:key_presence")
-			r.Record(raw, o)
-			if o.Fail != "" {
-				t.Fatalf("C20: %s", o.Fail)
-			}
-			n++
 		}
 	}
 	r.SetExtra("exhaustive_key_presence_combinations", n)
 	r.SetExtra("exhaustive", false) // only the key-presence sub-domain is enumerated
-	r.SetExtra("exhaustive_subdomain", "per key family, all 32 presence combinations of {container key for this container, for a prefix-named container, for an extension-named container, pod key, bare key}")
+	r.SetExtra("exhaustive_subdomain", "per plugin option set (6) and key family (4), all 32 presence combinations of {container key for this container, for a prefix-named container, for an extension-named container, pod key, bare key}")
 }
